@@ -159,6 +159,10 @@ func neighbour(w *world) error {
 }
 
 // attrsOf: what the API tells about an object besides its bytes
+// reads of one object (by key): answered with success for a name that is no object's key, they were served from another one
+var aliasReadOps = map[string]bool{"GetObject": true, "HeadObject": true, "GetObjectTagging": true, "GetObjectAttributes": true,
+	"GetObjectAcl": true, "GetObjectRetention": true, "GetObjectLegalHold": true}
+
 func attrsOf(w *world, key string) string {
 	cl := w.fx.Root
 	r, err := cl.Call("HEAD", "/"+w.fx.BktA+"/"+key, nil, nil, nil)
@@ -398,7 +402,8 @@ func execA(c caseA) (v verdict, err error) {
 	others := map[string]string{}
 	if c.Param == "key" && !strings.Contains(h, "..") && !strings.Contains(h, "\x00") && !multipartOp(c.Spec.Op) {
 		for _, k := range []string{cat.KeyObj, cat.KeyNested, keyMeta, cat.KeyDirObj} {
-			if filepath.Clean("/"+h) != filepath.Clean("/"+k) {
+			// (a name that merely resolves to the same file - "obj1/", "dir//obj2" - is not the name of that object)
+			if h != k {
 				others[k] = attrsOf(w, k)
 			}
 		}
@@ -452,6 +457,9 @@ func execA(c caseA) (v verdict, err error) {
 			content = string(was)
 			if rerr != nil || !bytes.Equal(data, was) {
 				return v, fmt.Errorf("%s changed the object %q, which the request does not name (the name given only resolves to the same file): now %q (%v)", pfx, k, trunc(string(data)), rerr)
+			}
+			if resp != nil && resp.Status/100 == 2 && c.Param == "key" && aliasReadOps[c.Spec.Op] {
+				return v, fmt.Errorf("%s answered %d: the name given is not the key of an object (it only resolves to the file of %q), yet the request was served from that object: %q", pfx, resp.Status, k, trunc(string(resp.Body)))
 			}
 			if resp != nil && resp.Status/100 == 2 && c.Param != "copy-source" && bytes.Contains(resp.Body, []byte(content)) {
 				return v, fmt.Errorf("%s returned the data of the object %q, which the request does not name: %q", pfx, k, trunc(string(resp.Body)))
